@@ -82,7 +82,7 @@ def specs() -> dict[str, dict[str, Any]]:
         "media_player_command": {
             "msg": "MediaPlayerCommandRequest",
             "opt": [Arg("command", m.MediaPlayerCommand.PLAY, m.MediaPlayerCommand.STOP, (m.MediaPlayerCommand.UNMUTE,)),
-                    Arg("volume", 0.0, 0.5, (1.0,)), Arg("media_url", "", "http://x/y.mp3", ("é", LONG, HUGE)), Arg("announcement", False, True)],
+                    Arg("volume", 0.0, 0.5, (1.0,)), Arg("media_url", "", "http://x/y.mp3", ("é", LONG, HUGE, GIANT)), Arg("announcement", False, True)],
         },
         "lock_command": {
             "msg": "LockCommandRequest",
@@ -97,7 +97,7 @@ def specs() -> dict[str, dict[str, Any]]:
         "switch_command": {"msg": "SwitchCommandRequest", "req": [("state", [False, True])], "opt": []},
         "number_command": {"msg": "NumberCommandRequest", "req": [("state", [0.0, -0.0, 1.5, -273.15, 1e10, 0.1])], "opt": []},
         "select_command": {"msg": "SelectCommandRequest", "req": [("state", ["", "opt", "é\U0001f600"])], "opt": []},
-        "text_command": {"msg": "TextCommandRequest", "req": [("state", ["", "hello", "é\U0001f600", LONG, HUGE])], "opt": []},
+        "text_command": {"msg": "TextCommandRequest", "req": [("state", ["", "hello", "é\U0001f600", LONG, HUGE, GIANT, "G" * 40000])], "opt": []},
         "button_command": {"msg": "ButtonCommandRequest", "req": [], "opt": []},
         "update_command": {"msg": "UpdateCommandRequest", "req": [("command", list(m.UpdateCommand))], "opt": []},
         "date_command": {"msg": "DateCommandRequest", "req": [("year", [0, 2024, 9999]), ("month", [0, 1, 12]), ("day", [0, 1, 31])], "opt": []},
@@ -136,6 +136,7 @@ def run_ms_sweep(version: tuple[int, int]) -> dict[str, Any]:
 
 LONG = "L" * 300
 HUGE = "h\u00e9" * 2500
+GIANT = "g" * 20000  # a payload whose length needs the upper half of a two-byte varint / more than 15 bits
 
 
 class Session:
